@@ -383,10 +383,9 @@ theorem recover_VWG (H : Body → String) (s : State) (now : Int) (names : List 
   have h4 := Guards_foldl (G := VWG none) (fun _ => True) stepV vals
     (by
       intro acc x _ _
-      refine ⟨toCache acc.1.mem x.1 (Entry.ofCmp x.2 .received) .received now ++
-        processCore H (run acc.1 (toCache acc.1.mem x.1 (Entry.ofCmp x.2 .received) .received now))
-          x.1 { Entry.ofCmp x.2 .received with time := now } now, ?_, ?_, trivial⟩
-      · simp only [stepV, run_append, List.append_assoc]
+      refine ⟨recoverValOne H acc.1 now x, rfl, ?_, trivial⟩
+      rcases recoverValOne_cases H acc.1 now x with ⟨_, h⟩ | ⟨_, h⟩ <;> rw [h]
+      · exact GuardsVW_of_all_easy none _ _ (by simp [easy])
       · apply Guards.append
         · exact GuardsVW_of_all_easy none _ _ (toCache_easy _ _ _ _ _ (by decide))
         · exact processCore_VWG none H _ _ _ _ _ rfl)
@@ -585,6 +584,11 @@ theorem processCore_quietFor (n : Name) (H : Body → String) (s : State) (x : N
         exact ⟨⟨by simp [quietFor], toCache_quietFor n _ _ _ _ _ hx hl (by decide)⟩,
           by simp [quietFor]⟩
 
+theorem recoverValOne_quietFor (n : Name) (H : Body → String) (t : State) (now : Int)
+    (x : Name × Cmp) (hx : x.1 ≠ n) : (recoverValOne H t now x).all (quietFor n) = true :=
+  recoverValOne_all (quietFor n) H t now x rfl rfl rfl
+    (toCache_quietFor n _ _ _ _ _ hx rfl (by decide)) (processCore_quietFor n H _ _ _ _ hx rfl)
+
 /-! ## Recover re-caches and re-queues a `.wait` file that matches its companion -/
 
 /-- `n` is cached as validated with the companion's metadata and an item for it, with the same
@@ -648,10 +652,7 @@ theorem recover_restores (H : Body → String) (s : State) (now : Int) (names : 
   have hr3 : r3.1 = run s2 r3.2 :=
     foldl_fst_run stepF (fun acc x => ⟨_, rfl⟩) s2 fins (s2, []) rfl
   have hr4 : r4.1 = run s2 r4.2 :=
-    foldl_fst_run stepV (fun acc x => ⟨toCache acc.1.mem x.1 (Entry.ofCmp x.2 .received) .received now ++
-        processCore H (run acc.1 (toCache acc.1.mem x.1 (Entry.ofCmp x.2 .received) .received now))
-          x.1 { Entry.ofCmp x.2 .received with time := now } now,
-        by simp only [stepV, run_append, List.append_assoc]⟩) s2 vals r3 hr3
+    foldl_fst_run stepV (fun acc x => ⟨_, rfl⟩) s2 vals r3 hr3
   have hest : ∀ acc, Restored n c (stepF acc (n, c)).1 := by
     intro acc
     simp only [stepF]
@@ -678,9 +679,7 @@ theorem recover_restores (H : Body → String) (s : State) (now : Int) (names : 
     intro acc x hx hq
     have hxn := hvals x hx
     simp only [stepV]
-    apply Restored_run n c _ _ _ (Restored_run n c _ _ _ hq)
-    · exact processCore_quietFor n H _ _ _ _ hxn rfl
-    · exact toCache_quietFor n _ _ _ _ _ hxn rfl (by decide)
+    exact Restored_run n c _ _ (recoverValOne_quietFor n H _ now x hxn) hq
   have hfinal : run s (p1 ++ p2 ++ r4.2 ++ [Prim.setReady true]) = run r4.1 [Prim.setReady true] := by
     rw [run_append, run_append, run_append, hr4]
   rw [hfinal]
@@ -721,6 +720,23 @@ theorem buildCacheLoad_kept (now : Int) (n : Name) :
       rw [run_cons, ih _ _ (by simp [hc])]
       simp [applyPrim, applyMem, upd_other _ _ _ _ hne]
 
+/-- a list of cache writes of logged entries keeps "cached as logged" -/
+theorem isLogged_run_logged (n : Name) (ps : List Prim)
+    (h : ∀ p ∈ ps, ∃ m e, p = Prim.cacheSet m e ∧ e.state = .logged) (t : State)
+    (hn : IsLogged n t) : IsLogged n (run t ps) := by
+  induction ps generalizing t with
+  | nil => exact hn
+  | cons p ps ih =>
+    rw [run_cons]
+    apply ih (fun q hq => h q (by simp [hq]))
+    obtain ⟨m, e, rfl, he⟩ := h p (by simp)
+    by_cases hmn : n = m
+    · subst hmn
+      simp only [IsLogged, applyPrim, applyMem]
+      exact ⟨_, upd_same _ _ _, he⟩
+    · obtain ⟨e0, h0, h1⟩ := hn
+      exact ⟨e0, by simp [applyPrim, applyMem, upd_other _ _ _ _ hmn, h0], h1⟩
+
 /-- a name that is not cached and has a record among those read is loaded as logged -/
 theorem buildCacheLoad_loads (now : Int) (n : Name) :
     ∀ (recs : List LogRec) (cached : Name → Bool) (t : State), cached n = false →
@@ -740,16 +756,18 @@ theorem buildCacheLoad_loads (now : Int) (n : Name) :
       · exact ⟨r', h, hn⟩
     · rw [run_cons]
       by_cases hrn : r.name = n
-      · rw [IsLogged, buildCacheLoad_kept now n rs _ _ (by simp [hrn])]
-        subst hrn
-        simp only [applyPrim, applyMem]
-        exact ⟨_, upd_same _ _ _, rfl⟩
-      · apply ih
-        · simp [hc]; exact fun h => hrn h.symm
-        · obtain ⟨r', hr', hn⟩ := hex
-          rcases List.mem_cons.mp hr' with h | h
-          · subst h; exact absurd hn hrn
-          · exact ⟨r', h, hn⟩
+      · apply isLogged_run_logged n _ _ _
+        · subst hrn
+          simp only [IsLogged, applyPrim, applyMem]
+          exact ⟨_, upd_same _ _ _, rfl⟩
+        · intro p hp
+          obtain ⟨r', _, e, he, hst⟩ := buildCacheLoad_spec _ _ _ p hp
+          exact ⟨_, e, he, hst⟩
+      · apply ih _ _ hc
+        obtain ⟨r', hr', hn⟩ := hex
+        rcases List.mem_cons.mp hr' with h | h
+        · subst h; exact absurd hn hrn
+        · exact ⟨r', h, hn⟩
 
 /-- a list of cache writes of logged entries keeps "not cached or logged" -/
 theorem NL_run_logged (n : Name) (ps : List Prim)
@@ -950,10 +968,7 @@ theorem recover_crashed_logged (H : Body → String) (s : State) (now : Int) (na
   have hr3 : r3.1 = run s2 r3.2 :=
     foldl_fst_run stepF (fun acc x => ⟨_, rfl⟩) s2 fins (s2, []) rfl
   have hr4 : r4.1 = run s2 r4.2 :=
-    foldl_fst_run stepV (fun acc x => ⟨toCache acc.1.mem x.1 (Entry.ofCmp x.2 .received) .received now ++
-        processCore H (run acc.1 (toCache acc.1.mem x.1 (Entry.ofCmp x.2 .received) .received now))
-          x.1 { Entry.ofCmp x.2 .received with time := now } now,
-        by simp only [stepV, run_append, List.append_assoc]⟩) s2 vals r3 hr3
+    foldl_fst_run stepV (fun acc x => ⟨_, rfl⟩) s2 vals r3 hr3
   -- the two folds leave the entry of `n` and the cache start time alone
   have hQ3 : r3.1.mem.cache n = s2.mem.cache n ∧ r3.1.mem.cacheTime = s2.mem.cacheTime := by
     refine foldl_keep (fun t => t.mem.cache n = s2.mem.cache n ∧ t.mem.cacheTime = s2.mem.cacheTime)
@@ -973,13 +988,8 @@ theorem recover_crashed_logged (H : Body → String) (s : State) (now : Int) (na
     intro acc x hx hq
     have hxn := hvals x hx
     simp only [stepV]
-    obtain ⟨a, b, _⟩ := quietFor_run n _ (toCache_quietFor n acc.1.mem x.1 (Entry.ofCmp x.2 .received)
-      .received now hxn rfl (by decide)) acc.1
-    obtain ⟨a', b', _⟩ := quietFor_run n _ (processCore_quietFor n H
-      (run acc.1 (toCache acc.1.mem x.1 (Entry.ofCmp x.2 .received) .received now)) x.1
-      { Entry.ofCmp x.2 .received with time := now } now hxn rfl)
-      (run acc.1 (toCache acc.1.mem x.1 (Entry.ofCmp x.2 .received) .received now))
-    exact ⟨(a'.trans a).trans hq.1, (b'.trans b).trans hq.2⟩
+    obtain ⟨a, b, _⟩ := quietFor_run n _ (recoverValOne_quietFor n H acc.1 now x hxn) acc.1
+    exact ⟨a.trans hq.1, b.trans hq.2⟩
   have hfinal : run (crash s) (p1 ++ p2 ++ r4.2 ++ [Prim.setReady true]) =
       run r4.1 [Prim.setReady true] := by
     rw [run_append, run_append, run_append, hr4]
